@@ -5,13 +5,13 @@ MCNone(k, i, j) == None
 
 \* second configuration: errors and text at fixed positions, chosen so that
 \* an error meets a number, a text, and another error (the left one wins),
-\* in corner, edge and interior positions, and so that the third operand is
-\* an error when it is a scalar
+\* in corner, edge and interior positions, and so that the second and the
+\* third operand are errors when they are scalars (position (1, 1))
 In(i, j, S) == <<i, j>> \in S
 MCSpecial(k, i, j) ==
   CASE k = 1 /\ In(i, j, {<<1,2>>, <<2,2>>, <<3,3>>}) -> <<"E", "#DIV/0!">>
     [] k = 1 /\ In(i, j, {<<2,1>>, <<4,4>>, <<1,3>>}) -> <<"S", "x">>
-    [] k = 2 /\ In(i, j, {<<2,2>>, <<1,3>>, <<4,1>>}) -> <<"E", "#NUM!">>
+    [] k = 2 /\ In(i, j, {<<1,1>>, <<2,2>>, <<1,3>>, <<4,1>>}) -> <<"E", "#NUM!">>
     [] k = 2 /\ In(i, j, {<<3,1>>, <<2,4>>, <<1,2>>}) -> <<"S", "y">>
     [] k = 3 /\ In(i, j, {<<1,1>>, <<3,2>>})          -> <<"E", "#NAME?">>
     [] k = 3 /\ In(i, j, {<<2,3>>})                   -> <<"S", "z">>
